@@ -124,6 +124,11 @@ func driveCmd(args []string) {
 			if err := r.Step(first); err != nil {
 				fatal(err)
 			}
+			for _, op := range g.Prologue() {
+				if err := r.Step(op); err != nil {
+					fatal(err)
+				}
+			}
 			for s := 0; s < *steps; s++ {
 				if err := r.Step(g.Next()); err != nil {
 					fatal(err)
